@@ -26,6 +26,7 @@ var c20Files = map[string]string{
 	"g2.xml":         "<doc><a>alpha</a><a>beta</a><b><a>gamma</a></b></doc>",
 	"g3.xml":         "<r><!-- c\nd --><?pi a\nb?><a>x</a></r>",
 	"g4.xml":         "<r><e/><e>two</e><e a=\"\">three</e><!----><a></a><a>last</a></r>",
+	"g6.xml":         "<r><a>made by &corp; in 2020</a><a k=\"&corp;\">x&nbsp;y&amp;z</a></r>",
 	"g5%d.xml":       "<r p=\"5%\"><a>100% d%s %v%%</a><!--%d--><?pi %s?><a>%</a></r>",
 	"d.json":         `{"a": [1, 2.5, "x"], "b": {"a": true}}`,
 	"p.html":         "<!doctype html><html><body><a href=\"u\">link</a><p>para<b>bold</b></p><!--hc--></body></html>",
@@ -40,6 +41,7 @@ type c20Flags struct {
 	A, M, N, R bool
 	T          string
 	S, V       bool
+	U, E       bool // -u (non-strict XML decoding), -e corp=ACME (entity binding)
 }
 
 func (f c20Flags) args() []string {
@@ -64,6 +66,12 @@ func (f c20Flags) args() []string {
 	}
 	if f.V {
 		a = append(a, "-v", "v=hello")
+	}
+	if f.U {
+		a = append(a, "-u")
+	}
+	if f.E {
+		a = append(a, "-e", "corp=ACME")
 	}
 	return a
 }
@@ -110,7 +118,12 @@ func c20Expected(path, display string, data []byte, f c20Flags, expr string) c20
 	var err error
 	switch typ {
 	case "xml":
-		cur, err = xsel.ReadXml(bytes.NewReader(data))
+		cur, err = xsel.ReadXml(bytes.NewReader(data), func(d *xml.Decoder) {
+			d.Strict = !f.U
+			if f.E {
+				d.Entity = map[string]string{"corp": "ACME"}
+			}
+		})
 	case "html":
 		cur, err = xsel.ReadHtml(bytes.NewReader(data))
 	case "json":
@@ -355,6 +368,7 @@ func C20(c *run.Check) {
 		{"newlines in comments and PIs", []string{"g3.xml", "g2.xml"}, ""},
 		{"first selected node has an empty string value", []string{"g4.xml", "g1.xml"}, ""},
 		{"percent signs in file names and values", []string{"g5%d.xml", "g2.xml"}, ""},
+		{"entity references (bound with -e, unknown, non-strict)", []string{"g6.xml", "g2.xml"}, ""},
 	}
 	var flags []c20Flags
 	for m := 0; m < 16; m++ {
@@ -364,6 +378,12 @@ func C20(c *run.Check) {
 					continue
 				}
 				flags = append(flags, c20Flags{A: m&1 != 0, M: m&2 != 0, N: m&4 != 0, R: m&8 != 0, T: t, S: sv == 1, V: sv == 1})
+				// XML decoding flags: -u / -e in all four combinations on a subset
+				if (t == "" || t == "xml") && (m == 0 || m == 5 || m == 2) {
+					for ue := 1; ue < 4; ue++ {
+						flags = append(flags, c20Flags{A: m&1 != 0, M: m&2 != 0, N: m&4 != 0, R: m&8 != 0, T: t, S: sv == 1, V: sv == 1, U: ue&1 != 0, E: ue&2 != 0})
+					}
+				}
 			}
 		}
 	}
@@ -603,7 +623,7 @@ func C20(c *run.Check) {
 	c.Sample(map[string]interface{}{"args": []string{"-a", "-n", "-x", "//a", "g1.xml", "g2.xml"}, "files": "see rule"})
 	c.Sample(map[string]interface{}{"args": []string{"-m", "-r", "-x", "/*", "sub", "g1.xml"}})
 	c.Set("runs", len(jobs))
-	c.Rule = fmt.Sprintf("the freshly built xsel command run as a subprocess on a generated directory tree (2 good XML files with namespaces/attributes/multi-line text/comment/PI, JSON, HTML, malformed XML and JSON, HTML without doctype, .txt, extension-less, a file with %% in its name and values, nested directories, a dangling symlink, a missing file, stdin) for %d argument sets x %d flag combinations (-a -m -n -r, -t none/xml/html/json, -s/-v) x %d expressions: per input the expected block is derived from the library API on the same bytes (nothing for an empty node-set; string value; -a one record per node; -m one single-line record per node whose text, parsed back by the harness, equals the selected node's subtree with expanded names; 'path: ' prefix unless -n/stdin; type detection; a diagnostic naming each bad input on stderr); stdout must be a concatenation of exactly these blocks in some order", len(argsets), len(flags), len(c20Exprs))
+	c.Rule = fmt.Sprintf("the freshly built xsel command run as a subprocess on a generated directory tree (2 good XML files with namespaces/attributes/multi-line text/comment/PI, JSON, HTML, malformed XML and JSON, HTML without doctype, .txt, extension-less, a file with %% in its name and values, nested directories, a dangling symlink, a missing file, stdin) for %d argument sets x %d flag combinations (-a -m -n -r, -t none/xml/html/json, -s/-v, -u/-e) x %d expressions: per input the expected block is derived from the library API on the same bytes (nothing for an empty node-set; string value; -a one record per node; -m one single-line record per node whose text, parsed back by the harness, equals the selected node's subtree with expanded names; 'path: ' prefix unless -n/stdin; type detection; a diagnostic naming each bad input on stderr); stdout must be a concatenation of exactly these blocks in some order", len(argsets), len(flags), len(c20Exprs))
 	c.Assume("the statement fixes no order of files, so blocks are matched as a multiset; attribute and namespace nodes under -m are only required to yield one line carrying their name and value")
 }
 
